@@ -97,7 +97,7 @@ def _classify(ctx, r, tag, env, dist, distinct, samples, lockstep=True):
     for k, v in f.items():
         dist["features"][k] = dist["features"].get(k, 0) + (1 if v else 0)
     for h in r["header"]:
-        if h.startswith("cap=") or h.startswith("batch=") or h.startswith("threads=") or h.startswith("pool="):
+        if h.startswith(("cap=", "batch=", "threads=", "pool=", "base=")):
             dist["config"][h] = dist["config"].get(h, 0) + 1
     nontrivial = (f["comp_push"] + f["comp_pop"] + f["blocked_pop"] + f["overflow_destroy"] + f["comp_cas_fail"] > 0) and \
                  (f["switch_inside"] > 0 or tag.startswith("seq"))
